@@ -35,6 +35,8 @@ def rule(rid, title, props=None, min_instances=1):
 
     def deco(func):
         rd = RuleDef(rid, title, func, plist, min_instances)
+        if rid in RULES:
+            raise RuntimeError('rule id %s registered twice' % rid)
         RULES[rid] = rd
         for p in plist:
             PROPERTY_RULES.setdefault(p, []).append(rid)
